@@ -51,6 +51,7 @@ func LawShapes(thorough bool) []*Shape {
 		out = append(out, Mixed(a)...)
 	}
 	out = append(out, UserDefined()...)
+	out = append(out, Collide()...)
 	out = append(out, Names(AnnVJL)...)
 	out = append(out, Grouped(AnnVJL)...)
 	if thorough {
